@@ -589,8 +589,8 @@ func (c *Ctx) rebuiltInWriter(key string) string {
 			continue
 		}
 		for _, st := range storesToField(fn, f) {
-			if fn.Parent() != nil {
-				return "" // stores inside closures: order not decided here
+			if fn.Parent() != nil && exactHelper(fn) == nil {
+				return "" // stores inside closures that are not called in place: order not decided here
 			}
 			if isNilConst(st.Val) {
 				clears = append(clears, st)
@@ -1211,6 +1211,14 @@ func (c *Ctx) allCallersHold(fn *ssa.Function, ownerVal ssa.Value, gp guardPair,
 		}
 		n++
 		args := actualArgs(e.Site)
+		if pidx < 0 && fn.Parent() != nil && exactHelper(fn) != nil {
+			// a private closure reads the owner through a captured variable, whose path is rendered as the
+			// making function's own (inline.go)
+			if caller != fn.Parent() || c.holdsLockAP(caller, e.Site, ownerAP, gp, write) == "" {
+				return false
+			}
+			continue
+		}
 		if len(args) == 0 {
 			return false
 		}
@@ -1219,7 +1227,16 @@ func (c *Ctx) allCallersHold(fn *ssa.Function, ownerVal ssa.Value, gp guardPair,
 			ap = AccessPath(args[pidx]) + suffix
 		}
 		if c.holdsLockAP(caller, e.Site, ap, gp, write) == "" {
-			return false
+			// the caller is a private closure: the question moves to the places where it is called
+			h := exactHelper(caller)
+			if h == nil || caller.Parent() == nil {
+				return false
+			}
+			for _, st := range h.sites {
+				if c.holdsLockAP(st.Parent(), st, ap, gp, write) == "" {
+					return false
+				}
+			}
 		}
 	}
 	return n > 0
